@@ -332,6 +332,10 @@ func runeAt(text string, line, col int) string {
 
 // checkManifest is the monitor: m.Items / m.Schema may be nil positions (= not checked) for replayed cases.
 func checkManifest(run *core.Run, m manifest) {
+	run.Guard(&core.Case{Kind: "raw", Text: m.Text}, func() { checkManifest1(run, m) })
+}
+
+func checkManifest1(run *core.Run, m manifest) {
 	c := &core.Case{Kind: "manifest", Text: m.Text}
 	for _, e := range m.Entries {
 		c.Strs = append(c.Strs, e.Written+"\x00"+e.Raw+"\x00"+e.Class)
